@@ -25,7 +25,11 @@ META = {
              "state (Hv/Query/Bucket.lean: lazy build over a snapshot, pending buffer, drain, OnInsert/OnUpdate/OnDelete) and "
              "bucket_tracks_store proves it files exactly the live records under the canonical key of their current body after "
              "every history, given the extracted notification facts; floats are k/4 with |k| small, integers below 2^53 (no NaN/Inf, "
-             "no lossy int-float conversion); filters are body-field comparison / IN / emptiness legs; forcing the scan route by "
+             "no lossy int-float conversion); filters are body-field comparison / IN / emptiness legs plus a geo-distance leg generated as an "
+             "opaque, never-hinted leg (residual_carries_opaque; phrase / vector / nested-slice legs go the same way through "
+             "cloneGroupHeader, whose field list is pinned against hydrapb.FilterGroup, and are not generated); msgpack times are whole "
+             "seconds; IncludedKeys / ExcludeKeys / KeysOnly are applied by the per-row loop after the route is chosen and are not "
+             "generated; both stream handlers (GetByIndexStream, GetByIndexStreamFromMany) are run and extracted; forcing the scan route by "
              "wrapping the filter as the single sub-group of an OR group (planOr bypasses on sub-groups; verified by extract)."),
     "design_ref": "§8 C08",
 }
